@@ -1154,3 +1154,402 @@ Module Examples.
   Example vref_runs : exists fs, expand_unwrap snake0 vref_enum = EOk fs /\ map uw_name fs = [s_unwrap ++ [97]%N].
   Proof. eexists; split; vm_compute; reflexivity. Qed.
 End Examples.
+
+(* ================================================================== growth round *)
+
+(* ------------------------------------------------------------------ the first-match defaults in closed form *)
+
+Fixpoint first_attr_of (l : list variant) : option (list param) :=
+  match l with
+  | [] => None
+  | vr :: r => match v_attr vr with Some ps => Some ps | None => first_attr_of r end
+  end.
+
+(** utils.rs:416-454 spelled out: what [State::new_impl] computes as the enum's defaults ... *)
+Definition spec_defaults (e : enum) : full :=
+  let fa := first_attr_of (e_variants e) in
+  let eps := match e_attr e with Some ps => ps | None => [] end in
+  {| fi_enabled := match e_attr e with
+                   | Some ps => negb (has PIgnore ps)
+                   | None => match fa with None => true | Some ps => has PIgnore ps end
+                   end;
+     fi_owned := has POwned eps ||
+                 match fa with
+                 | None => true
+                 | Some ps => (negb (has POwned ps) && negb (has PRef ps)) || negb (has PRefMut ps)
+                 end;
+     fi_ref := has PRef eps;
+     fi_mut := has PRefMut eps |}.
+
+(** ... and as the info of a variant (or, from the variant's info, of a field) *)
+Definition spec_info (d : full) (a : attr) : full :=
+  match a with
+  | None => d
+  | Some ps => {| fi_enabled := negb (has PIgnore ps); fi_owned := has POwned ps || fi_owned d;
+                  fi_ref := has PRef ps || fi_ref d; fi_mut := has PRefMut ps || fi_mut d |}
+  end.
+
+Definition meta_of (ps : list param) : meta :=
+  {| m_enabled := Some (negb (has PIgnore ps));
+     m_owned := if has POwned ps then Some true else None;
+     m_ref := if has PRef ps then Some true else None;
+     m_mut := if has PRefMut ps then Some true else None |}.
+
+Lemma get_meta_info_some allowed ps i : get_meta_info allowed (Some ps) = Some i -> i = meta_of ps.
+Proof.
+  unfold get_meta_info. destruct allowed as [|a0 al]; [discriminate|].
+  destruct (_ && _); [discriminate|]. intros H. apply apply_params_spec in H. subst i. unfold meta_of; cbn.
+  destruct (has PIgnore ps); reflexivity.
+Qed.
+
+Lemma get_meta_info_none allowed i : get_meta_info allowed None = Some i -> i = meta_none.
+Proof. cbn. intros H; inversion H; reflexivity. Qed.
+
+Lemma into_full_meta_of ps d : into_full (meta_of ps) d = spec_info d (Some ps).
+Proof.
+  unfold into_full, meta_of, spec_info; cbn.
+  destruct (has POwned ps), (has PRef ps), (has PRefMut ps); reflexivity.
+Qed.
+
+Lemma into_full_meta_none d : into_full meta_none d = d.
+Proof. destruct d; reflexivity. Qed.
+
+Lemma first_match_first_attr allowed l ms :
+  Forall2 (fun vr i => get_meta_info allowed (v_attr vr) = Some i) l ms ->
+  first_match ms = option_map meta_of (first_attr_of l).
+Proof.
+  induction 1 as [|vr i l ms Hi H IH]; [reflexivity|].
+  cbn [first_attr_of]. destruct (v_attr vr) as [ps|].
+  - apply get_meta_info_some in Hi. subst i. reflexivity.
+  - apply get_meta_info_none in Hi. subst i. unfold first_match in *. cbn. exact IH.
+Qed.
+
+(** [State::new_impl], all inputs: the defaults and every variant's info in closed form *)
+Theorem state_closed_form ap e st :
+  new_state ap e = Some st ->
+  st_default st = spec_defaults e /\
+  Forall (fun vs => vs_info vs = spec_info (spec_defaults e) (v_attr (vs_variant vs))) (st_vstates st).
+Proof.
+  unfold new_state. intros H.
+  destruct (get_meta_info (ap_enum ap) (e_attr e)) as [sm|] eqn:Hsm; [|discriminate].
+  destruct (mapM _ (e_variants e)) as [ms|] eqn:Hms; [|discriminate].
+  cbv zeta in H.
+  match type of H with match mapM ?f ?l with _ => _ end = _ => destruct (mapM f l) as [vss|] eqn:Hv; [|discriminate] end.
+  inversion H; subst; cbn [st_default st_vstates]. clear H.
+  apply mapM_Forall2 in Hms. apply mapM_Forall2 in Hv.
+  rewrite (first_match_first_attr _ _ _ Hms) in *.
+  match goal with |- ?d = _ /\ _ => assert (Hd : d = spec_defaults e) end.
+  { unfold spec_defaults. destruct (e_attr e) as [eps|].
+    - apply get_meta_info_some in Hsm. subst sm. rewrite into_full_meta_of. unfold spec_info; cbn.
+      destruct (first_attr_of (e_variants e)) as [ps|]; cbn.
+      + destruct (has POwned ps), (has PRef ps), (has PRefMut ps), (has POwned eps), (has PRef eps), (has PRefMut eps); reflexivity.
+      + destruct (has POwned eps), (has PRef eps), (has PRefMut eps); reflexivity.
+    - apply get_meta_info_none in Hsm. subst sm. rewrite into_full_meta_none. cbn.
+      destruct (first_attr_of (e_variants e)) as [ps|]; cbn.
+      + rewrite negb_involutive.
+        destruct (has POwned ps), (has PRef ps), (has PRefMut ps); reflexivity.
+      + reflexivity. }
+  split; [exact Hd|]. rewrite Hd in Hv.
+  apply Forall_forall. intros vs Hin.
+  destruct (Forall2_In_r _ _ _ _ Hv Hin) as ([vr info] & Hc & Hf).
+  unfold from_variant in Hf. destruct (mapM _ (v_fields vr)); [|discriminate]. inversion Hf; subst; cbn.
+  destruct (Forall2_combine_map _ _ _ _ _ _ Hms Hc) as (i & -> & Hi).
+  destruct (v_attr vr) as [ps|].
+  - apply get_meta_info_some in Hi. subst i. apply into_full_meta_of.
+  - apply get_meta_info_none in Hi. subst i. apply into_full_meta_none.
+Qed.
+
+(** the defect behind KNOWN_FINDINGS `variant-level-ref-attr`, third symptom: the first attributed variant
+    names ref_mut together with ref or owned *)
+Definition owned_quirk (e : enum) : bool :=
+  match first_attr_of (e_variants e) with
+  | Some ps => has PRefMut ps && (has PRef ps || has POwned ps)
+  | None => false
+  end.
+
+(** next to an enum-level list (without [ignore]) the documented reading holds: a variant is enabled iff it
+    does not say [ignore], it has the reference kinds of the enum's list plus its own, and the by-value
+    kind unless [owned_quirk] *)
+Theorem selection_rule_anchored ap e st eps vs :
+  new_state ap e = Some st -> e_attr e = Some eps -> has PIgnore eps = false -> In vs (st_vstates st) ->
+  let ps := match v_attr (vs_variant vs) with Some ps => ps | None => [] end in
+  fi_enabled (vs_info vs) = negb (has PIgnore ps) /\
+  fi_ref (vs_info vs) = has PRef eps || has PRef ps /\
+  fi_mut (vs_info vs) = has PRefMut eps || has PRefMut ps /\
+  fi_owned (vs_info vs) = has POwned eps || has POwned ps || negb (owned_quirk e).
+Proof.
+  intros Hst He Hi Hin. destruct (state_closed_form _ _ _ Hst) as [_ HF].
+  rewrite Forall_forall in HF. rewrite (HF _ Hin). unfold spec_defaults, owned_quirk. rewrite He, Hi.
+  destruct (v_attr (vs_variant vs)) as [ps|]; cbn;
+    destruct (first_attr_of (e_variants e)) as [fp|]; cbn;
+    repeat match goal with |- context [has ?p ?l] => destruct (has p l) end; auto.
+Qed.
+
+Section Growth.
+Variable to_snake : str -> str.
+
+(** Unwrap / TryUnwrap, all inputs: an enabled variant has the accessor of kind [m] iff the ENUM's defaults
+    have [m] - a list written on the variant never matters (this contains the known finding) *)
+Definition mode_flag (m : smode) (d : full) : bool :=
+  match m with MMove => fi_owned d | MRef => fi_ref d | MRefMut => fi_mut d end.
+
+Theorem unwrap_accessor_iff pre e st fs vs m :
+  NoDup (names e) -> new_state ap_refs e = Some st -> expand_unwrap_like to_snake pre e = EOk fs ->
+  In vs (enabled_vstates st) ->
+  ((exists f, In f fs /\ vp_ident (uw_pat f) = v_ident (vs_variant vs) /\ uw_mode f = m)
+   <-> mode_flag m (spec_defaults e) = true).
+Proof.
+  intros Hnd Hst Hex Hvs.
+  destruct (expand_unwrap_inv _ _ _ _ Hex) as (st' & fss & Hst' & HF & ->). assert (st' = st) by congruence; subst st'.
+  destruct (state_closed_form _ _ _ Hst) as [Hd HI]. rewrite Forall_forall in HI.
+  pose proof (enabled_sub _ _ Hvs) as [Hvin _].
+  assert (Hflag : forall vs0, In vs0 (st_vstates st) ->
+            mode_flag m (vs_info vs0) && mode_flag m (st_default st) = mode_flag m (spec_defaults e)).
+  { intros vs0 H0. rewrite (HI _ H0), Hd. destruct (v_attr (vs_variant vs0)) as [ps|]; destruct m; cbn;
+      repeat match goal with |- context [has ?p ?l] => destruct (has p l) end;
+      try reflexivity; apply andb_diag. }
+  split.
+  - intros (f & Hin & Hid & Hm).
+    destruct (in_concat_F2 _ _ _ _ HF Hin) as (vs0 & l & Hvs0 & Hl & Hfl).
+    destruct (unwrap_fns_shape _ _ _ _ _ _ Hl Hfl) as (sh & suf & _ & _ & _ & _ & Hmode).
+    pose proof (enabled_sub _ _ Hvs0) as [H0 _]. rewrite <- (Hflag _ H0).
+    destruct Hmode as [(Hm' & _ & E)|[(Hm' & _ & E)|(Hm' & _ & E)]]; rewrite Hm' in Hm; subst m; exact E.
+  - intros Hfl. destruct (Forall2_In_l _ _ _ _ HF Hvs) as (l & Hl & Hfn).
+    rewrite <- (Hflag _ Hvin) in Hfl.
+    assert (exists f, In f l /\ vp_ident (uw_pat f) = v_ident (vs_variant vs) /\ uw_mode f = m) as (f & Hf & ? & ?).
+    { unfold unwrap_fns in Hfn.
+      destruct (format_ident _ _ [] _); [|discriminate].
+      destruct (format_ident _ _ s_ref _); [|discriminate].
+      destruct (format_ident _ _ s_mut _); [|discriminate].
+      destruct (get_field_info _) as [[sh ret]|]; [|discriminate].
+      inversion Hfn; subst l; clear Hfn. destruct m; cbn [mode_flag] in Hfl; rewrite Hfl.
+      - eexists; split; [apply in_or_app; left; left; reflexivity|]. cbn; auto.
+      - eexists; split; [apply in_or_app; right; apply in_or_app; left; left; reflexivity|]. cbn; auto.
+      - eexists; split; [apply in_or_app; right; apply in_or_app; right; left; reflexivity|]. cbn; auto. }
+    exists f; repeat split; auto. apply in_concat. exists l; split; auto.
+Qed.
+
+(** IsVariant without any attribute: one [is_*] per variant, in order, and on every value exactly one of them
+    is true - the one of the value's variant *)
+Theorem is_variant_partition e fs v :
+  NoDup (names e) -> e_attr e = None -> Forall (fun vr => v_attr vr = None) (e_variants e) ->
+  expand_is_variant to_snake e = EOk fs -> wf_value e v ->
+  map (fun f => vp_ident (if_pat f)) fs = map v_ident (e_variants e) /\
+  length (filter (fun f => eval_is e f v) fs) = 1.
+Proof.
+  intros Hnd He Hv Hex (vrt & Ht & _).
+  destruct (expand_is_inv _ _ _ Hex) as (st & Hst & _).
+  destruct (state_closed_form _ _ _ Hst) as [_ HI]. rewrite Forall_forall in HI, Hv.
+  assert (Hfa : first_attr_of (e_variants e) = None).
+  { clear - Hv. induction (e_variants e) as [|vr l IH]; cbn; auto.
+    rewrite (Hv vr (or_introl eq_refl)). apply IH. intros x Hx. apply Hv. right; exact Hx. }
+  assert (Hen : forall vs, In vs (st_vstates st) -> fi_enabled (vs_info vs) = true).
+  { intros vs Hin. rewrite (HI _ Hin).
+    assert (Hvv : In (vs_variant vs) (e_variants e)).
+    { rewrite <- (new_state_variants _ _ _ Hst). apply in_map; exact Hin. }
+    rewrite (Hv _ Hvv). unfold spec_info, spec_defaults. rewrite He, Hfa. reflexivity. }
+  split.
+  - rewrite (is_variant_covers _ _ _ _ Hst Hex). unfold enabled_vstates.
+    rewrite <- (new_state_variants _ _ _ Hst), map_map. f_equal.
+    clear - Hen. induction (st_vstates st) as [|a l IH]; cbn; auto.
+    rewrite (Hen a (or_introl eq_refl)). f_equal. apply IH. intros x Hx; apply Hen; right; exact Hx.
+  - destruct (vstate_of_variant _ _ _ _ _ Hst Ht) as (vs & Hvs & _).
+    rewrite (is_variant_exactly_one _ _ _ _ _ _ Hnd Hst Hex Hvs).
+    rewrite (Hen vs (nth_error_In _ _ Hvs)). reflexivity.
+Qed.
+
+End Growth.
+
+(** the fall-through block lists every variant: on every value exactly one of its arms matches (ignored
+    variants take part in the partition) *)
+Theorem failed_block_partition ap e st m v :
+  NoDup (names e) -> new_state ap e = Some st -> wf_value e v ->
+  length (filter (fun p => is_some (match_vpat (e_variants e) m p v)) (failed_block st)) = 1.
+Proof.
+  intros Hnd Hst (vrt & Ht & _).
+  destruct (vstate_of_variant _ _ _ _ _ Hst Ht) as (vs & Hvs & Hvv).
+  unfold failed_block.
+  set (q := fun vs0 : vstate => str_eqb (id_name (v_ident (vs_variant vs0))) (id_name (v_ident (vs_variant vs)))).
+  assert (H : forall l, length (filter (fun p => is_some (match_vpat (e_variants e) m p v))
+                         (map (fun vs0 => {| vp_ident := v_ident (vs_variant vs0); vp_shape := data_rest (v_kind (vs_variant vs0)) |}) l))
+                       = length (filter q l)).
+  { induction l as [|a l IH]; cbn [map filter]; auto.
+    rewrite (match_rest _ _ _ _ _ _ Ht). unfold q at 1. unfold ident_eqb. rewrite Hvv.
+    destruct (str_eqb _ _); cbn; rewrite IH; reflexivity. }
+  rewrite H. unfold q.
+  rewrite (filter_singleton (fun vs0 => id_name (v_ident (vs_variant vs0))) _ _ _ (vstates_nodup _ _ _ Hst Hnd) Hvs).
+  reflexivity.
+Qed.
+
+(** the TryInto face of the first-match defect: the by-value conversion of a non-ignored variant whose field
+    types are the target's fails although the impl exists
+    ([#[try_into(ref)] enum E { #[try_into(owned, ref_mut)] A(T0), B(T0) }], [T0::try_from(E::B(x))]) *)
+Definition tiq_enum : enum :=
+  {| e_attr := Some [PRef];
+     e_variants := [ {| v_ident := {| id_raw := false; id_name := [97]%N |}; v_kind := KTuple;
+                        v_fields := [ {| f_ty := 0%N; f_attr := None |} ]; v_attr := Some [POwned; PRefMut] |};
+                     {| v_ident := {| id_raw := false; id_name := [98]%N |}; v_kind := KTuple;
+                        v_fields := [ {| f_ty := 0%N; f_attr := None |} ]; v_attr := None |} ] |}.
+
+Theorem try_into_owned_default_refuted :
+  exists e im v vr, wf_enum e /\ wf_value e v /\ nth_error (e_variants e) (tag v) = Some vr /\ v_attr vr = None /\
+    map f_ty (v_fields vr) = ti_types im /\ ti_mode im = MMove /\
+    (exists ims, expand_try_into e = EOk ims /\ In im ims) /\
+    eval_try_from e im v = IErr (Whole MMove v).
+Proof.
+  exists tiq_enum.
+  eexists {| ti_mode := MMove; ti_types := [0%N]; ti_matchers := _; ti_vars := _; ti_variant_names := _ |}.
+  exists {| tag := 1; payload := [7%N] |}. eexists.
+  split. { split; [unfold names; cbn; repeat constructor; cbn; intuition discriminate|repeat constructor; intros H; discriminate]. }
+  split. { eexists; split; reflexivity. }
+  split; [reflexivity|]. split; [reflexivity|]. split; [reflexivity|]. split; [reflexivity|].
+  split.
+  - eexists; split; [vm_compute; reflexivity|]. left; reflexivity.
+  - vm_compute. reflexivity.
+Qed.
+
+(* ------------------------------------------------------------------ failure messages *)
+
+Section Messages.
+Variable to_snake : str -> str.
+
+(** the panic payload / the error's [Display] name the called function and the value's own variant *)
+Theorem unwrap_failure_message ename pre e fs f x vr v :
+  wf_enum e -> expand_unwrap_like to_snake pre e = EOk fs -> In f fs ->
+  nth_error (e_variants e) x = Some vr -> vp_ident (uw_pat f) = v_ident vr -> wf_value e v -> tag v <> x ->
+  exists vr', nth_error (e_variants e) (tag v) = Some vr' /\
+    unwrap_message ename (eval_unwrap e f v) = Some (panic_msg ename (uw_name f) (v_ident vr')) /\
+    try_unwrap_message ename (eval_try_unwrap e f v) = Some (try_unwrap_error_display ename (uw_name f) (v_ident vr')).
+Proof.
+  intros Hwf Hex Hin Hx Hid Hv Hne.
+  destruct (unwrap_spec _ _ _ _ _ _ _ _ Hwf Hex Hin Hx Hid Hv) as [_ H1].
+  destruct (try_unwrap_spec _ _ _ _ _ _ _ _ Hwf Hex Hin Hx Hid Hv) as [_ H2].
+  destruct (H1 Hne) as (vr' & Hn & E1). destruct (H2 Hne) as (vr'' & Hn' & E2).
+  assert (vr'' = vr') by congruence; subst vr''.
+  exists vr'; split; auto. rewrite E1, E2. split; reflexivity.
+Qed.
+End Messages.
+
+(** the variants a [TryIntoError] lists are exactly those the impl converts, in declaration order *)
+Theorem try_into_names_listed e st ims im :
+  new_state ap_refs e = Some st -> expand_try_into e = EOk ims -> In im ims ->
+  ti_variant_names im =
+  map (fun vs => v_ident (vs_variant vs)) (filter (in_group (ti_mode im, ti_types im)) (enabled_vstates st)).
+Proof.
+  intros Hst Hex Hin.
+  destruct (expand_try_into_inv _ _ Hex) as (st' & Hst' & ->). assert (st' = st) by congruence; subst st'.
+  apply in_map_iff in Hin as ([k l] & <- & Hkl). cbn.
+  rewrite (group_content _ _ _ Hkl). destruct k; reflexivity.
+Qed.
+
+(* ------------------------------------------------------------------ the full attribute syntax *)
+
+Lemma parse_item_wrapped allowed w x i : parse_item allowed (Some w) x i = None.
+Proof.
+  destruct x as [n|n items]; destruct n; unfold parse_item, name_allowed; cbn; try reflexivity;
+    match goal with |- context [existsb ?f ?l] => destruct (existsb f l) end; reflexivity.
+Qed.
+
+Lemma name_allowed_param allowed n p : param_of_name n = Some p -> name_allowed allowed n = existsb (param_eqb p) allowed.
+Proof. unfold name_allowed. intros ->. reflexivity. Qed.
+
+(** nested lists are only ever accepted when empty ([owned()], [not()]); everything else is a flat list *)
+Theorem parse_items_flat allowed items i :
+  parse_items allowed None items i =
+  match flatten_items items with Some ps => apply_params allowed ps i | None => None end.
+Proof.
+  revert i; induction items as [|x r IH]; intros i; [reflexivity|].
+  cbn [parse_items flatten_items]. destruct x as [n|n l].
+  - (* a path *)
+    cbn [parse_item]. destruct (param_of_name n) as [p|] eqn:Ep.
+    + rewrite (name_allowed_param _ _ _ Ep).
+      destruct (existsb (param_eqb p) allowed) eqn:Ea; cbn [negb].
+      * rewrite IH. destruct (flatten_items r) as [ps|]; [|reflexivity].
+        cbn [apply_params]. rewrite Ea. reflexivity.
+      * destruct (flatten_items r) as [ps|]; [|reflexivity]. cbn [apply_params]. rewrite Ea. reflexivity.
+    + unfold name_allowed. rewrite Ep. reflexivity.
+  - (* a list *)
+    destruct l as [|y l'].
+    + destruct n; cbn [parse_item is_some].
+      * (* ignore() *) destruct (name_allowed allowed NIgnore); reflexivity.
+      * destruct (existsb (param_eqb POwned) allowed) eqn:Ea;
+          unfold name_allowed; cbn [param_of_name]; rewrite Ea; cbn [negb].
+        -- rewrite IH. destruct (flatten_items r); [|reflexivity]. cbn [apply_params]. rewrite Ea. reflexivity.
+        -- destruct (flatten_items r); [|reflexivity]. cbn [apply_params]. rewrite Ea. reflexivity.
+      * destruct (existsb (param_eqb PRef) allowed) eqn:Ea;
+          unfold name_allowed; cbn [param_of_name]; rewrite Ea; cbn [negb].
+        -- rewrite IH. destruct (flatten_items r); [|reflexivity]. cbn [apply_params]. rewrite Ea. reflexivity.
+        -- destruct (flatten_items r); [|reflexivity]. cbn [apply_params]. rewrite Ea. reflexivity.
+      * destruct (existsb (param_eqb PRefMut) allowed) eqn:Ea;
+          unfold name_allowed; cbn [param_of_name]; rewrite Ea; cbn [negb].
+        -- rewrite IH. destruct (flatten_items r); [|reflexivity]. cbn [apply_params]. rewrite Ea. reflexivity.
+        -- destruct (flatten_items r); [|reflexivity]. cbn [apply_params]. rewrite Ea. reflexivity.
+      * (* not() *) apply IH.
+      * reflexivity.
+    + (* a non-empty nested list is always rejected *)
+      assert (H : parse_item allowed None (MList n (y :: l')) i = None).
+      { destruct n; cbn [parse_item is_some]; try rewrite parse_item_wrapped; try reflexivity;
+          destruct (name_allowed allowed _); cbn [negb]; try reflexivity;
+          cbn [param_of_name]; rewrite parse_item_wrapped; reflexivity. }
+      rewrite H. destruct n; reflexivity.
+Qed.
+
+(** [get_meta_info] on the real attribute syntax = [get_meta_info] of the model on the flattened attribute
+    (for the parameter sets of these derives, which all contain [ignore]) *)
+Theorem get_meta_info_rich_lower allowed attrs :
+  existsb (param_eqb PIgnore) allowed = true ->
+  get_meta_info_rich allowed attrs =
+  match lower_attrs attrs with Some a => get_meta_info allowed a | None => None end.
+Proof.
+  intros Hi. destruct attrs as [|a rest]; [reflexivity|].
+  destruct allowed as [|a0 al]; [discriminate|].
+  destruct rest as [|b rest'].
+  - destruct a; cbn [get_meta_info_rich lower_attrs].
+    + rewrite Hi. unfold get_meta_info. rewrite Hi. reflexivity.
+    + rewrite parse_items_flat. destruct (flatten_items items) as [ps|]; [|reflexivity].
+      unfold get_meta_info. rewrite Hi. reflexivity.
+    + reflexivity.
+  - cbn [get_meta_info_rich lower_attrs]. destruct a; reflexivity.
+Qed.
+
+Definition item_of (p : param) : mitem :=
+  MPath (match p with PIgnore => NIgnore | POwned => NOwned | PRef => NRef | PRefMut => NRefMut end).
+Definition rich_of_attr (a : attr) : list rattr :=
+  match a with None => [] | Some [] => [RPath] | Some ps => [RList (map item_of ps)] end.
+
+(** the flat syntax of the model is a sub-language of the full one *)
+Theorem lower_rich_of_attr a : lower_attrs (rich_of_attr a) = Some a.
+Proof.
+  destruct a as [[|p ps]|]; try reflexivity.
+  cbn [rich_of_attr lower_attrs].
+  assert (H : forall l, flatten_items (map item_of l) = Some l).
+  { induction l as [|q l IH]; [reflexivity|]. cbn [map flatten_items item_of].
+    destruct q; cbn [param_of_name]; rewrite IH; reflexivity. }
+  rewrite H. reflexivity.
+Qed.
+
+Module GrowthExamples.
+  Import Examples.
+  (** [#[x(owned(), not(), ref)]] is [#[x(owned, ref)]]; [#[x(owned(ignore))]], two attributes, [#[x = ..]] are errors *)
+  Example rich_ok :
+    get_meta_info_rich (ap_variant ap_refs) [RList [MList NOwned []; MList NNot []; MPath NRef]]
+    = get_meta_info (ap_variant ap_refs) (Some [POwned; PRef]).
+  Proof. reflexivity. Qed.
+  Example rich_errors :
+    get_meta_info_rich (ap_variant ap_refs) [RList [MList NOwned [MPath NIgnore]]] = None /\
+    get_meta_info_rich (ap_variant ap_refs) [RPath; RPath] = None /\
+    get_meta_info_rich (ap_variant ap_refs) [RNameValue] = None /\
+    get_meta_info_rich (ap_variant ap_refs) [RList [MList NNot [MPath NIgnore]]] = None /\
+    get_meta_info_rich (ap_variant ap_is_variant) [RList [MPath NRef]] = None.
+  Proof. repeat split; reflexivity. Qed.
+  (** the anchored rule on ex2 ([#[x(owned, ref)]], variants without attribute, one ignored) *)
+  Example ex2_anchored : exists st, new_state ap_refs ex2 = Some st /\
+    map (fun vs => ref_types (vs_info vs)) (enabled_vstates st) = [[MMove; MRef]; [MMove; MRef]; [MMove; MRef]; [MMove; MRef]].
+  Proof. eexists; split; vm_compute; reflexivity. Qed.
+  Example quirk_sat : owned_quirk tiq_enum = true /\ owned_quirk ex2 = false.
+  Proof. split; reflexivity. Qed.
+  Example messages :
+    panic_msg [69]%N (s_unwrap ++ [98]%N) (id_ [100]%N)
+    = [99;97;108;108;101;100;32;96;69;58;58;117;110;119;114;97;112;95;98;40;41;96;32;111;110;32;97;32;96;69;58;58;100;96;32;118;97;108;117;101]%N.
+  Proof. reflexivity. Qed.
+End GrowthExamples.
